@@ -36,9 +36,12 @@ def snap(o, depth=0):
             b = hashlib.md5(repr(o.tolist()).encode()).hexdigest()
         try:
             ms = hashlib.md5(np.sort(np.asarray(o).reshape(-1)).view(np.uint8).tobytes()).hexdigest() if o.dtype != object else ""
+            # per axis: the values sorted along that axis (equal before/after = reordered within the lanes of that axis only)
+            lanes = tuple(hashlib.md5(np.ascontiguousarray(np.sort(np.asarray(o), axis=k)).view(np.uint8).tobytes()).hexdigest()
+                          for k in range(o.ndim)) if (o.dtype != object and 0 < o.ndim <= 4 and o.size <= 100000) else ()
         except Exception:
-            ms = ""
-        return ("nd", str(o.dtype), o.shape, o.strides, bool(o.flags.writeable), b, ms)
+            ms, lanes = "", ()
+        return ("nd", str(o.dtype), o.shape, o.strides, bool(o.flags.writeable), b, ms, lanes)
     if isinstance(o, dict):
         return ("dict", tuple((repr(k), snap(v, depth + 1)) for k, v in o.items()))
     if isinstance(o, (list, tuple)):
@@ -62,7 +65,9 @@ def describe_diff(a, b, path="arg"):
         names = ["kind", "dtype", "shape", "strides", "writeable", "bytes"]
         what = ",".join(n for n, x, y in zip(names, a, b) if x != y)
         if what == "bytes" and len(a) > 6 and a[6] and a[6] == b[6]:
-            what = "bytes (same multiset of values: reordered in place)"
+            within = len(a) > 7 and any(x == y for x, y in zip(a[7], b[7]))
+            what = ("bytes (same values in every lane of one axis: reordered within lanes in place)" if within
+                    else "bytes (same multiset of values overall but not per lane: values moved ACROSS lanes)")
         return "%s: %s changed" % (path, what)
     if a[0] in ("list", "tuple") and b[0] == a[0] and len(a[1]) == len(b[1]):
         for i, (x, y) in enumerate(zip(a[1], b[1])):
@@ -77,9 +82,25 @@ def describe_diff(a, b, path="arg"):
 
 
 # --------------------------------------------------------------------------- worker
-def worker(names, seed, nrep, out):
-    """Runs in a subprocess: prints one JSON line per call."""
+CALL_TIMEOUT = 30      # seconds a single catalogue call may take before it is reported as a hang
+
+
+def worker(names, seed, nrep, out, skipkeys=()):
+    """Runs in a subprocess: prints one JSON line per call.  `skipkeys` ("name|variant|rep") are calls already
+    made (or found to crash / hang) by an earlier worker on the same output file."""
     sys.path.insert(0, str(VERIF))
+    import threading
+    import time as _time
+    skip = set(skipkeys)
+    watch = {"deadline": None}
+
+    def watchdog():
+        while True:
+            _time.sleep(1.0)
+            d = watch["deadline"]
+            if d is not None and _time.time() > d:
+                os._exit(98)          # a compiled kernel that never returns cannot be interrupted from Python
+    threading.Thread(target=watchdog, daemon=True).start()
     import warnings
     warnings.simplefilter("ignore")
     np.seterr(all="ignore")
@@ -90,7 +111,7 @@ def worker(names, seed, nrep, out):
         ov = overlay.build()
     overlay.install(ov)
     from harness.props.c20_catalogue import CATALOGUE, VARIANTS, Skip
-    fo = open(out, "w")
+    fo = open(out, "a")
 
     def emit(d):
         fo.write(json.dumps(d) + "\n")
@@ -129,7 +150,10 @@ def worker(names, seed, nrep, out):
         build = CATALOGUE[name]
         for variant in VARIANTS:
             for rep in range(nrep):
+                if "%s|%s|%d" % (name, variant, rep) in skip:
+                    continue
                 emit({"name": name, "variant": variant, "rep": rep, "status": "start"})
+                watch["deadline"] = _time.time() + CALL_TIMEOUT * (4 if os.environ.get("VERIF_SANITIZE_OVERLAY") else 1)
                 try:
                     st, exc, mutated, rs, wrote = one(build, name, variant, rep, 0)
                 except Skip:
@@ -152,34 +176,28 @@ def worker(names, seed, nrep, out):
                     except Exception as e:
                         rec["padding_checked"] = "failed: %s" % str(e)[:80]
                 emit(rec)
+                watch["deadline"] = None
     fo.close()
 
 
-def run_workers(ck, names, nrep, env_extra=None, tag="w"):
-    """Split names over worker processes; returns list of records and list of crashes."""
+def run_workers(ck, names, nrep, env_extra=None, tag="w", skip0=()):
+    """Split names over worker processes; returns list of records and list of crashes / hangs.  A worker that
+    dies or hangs inside a call is restarted on the remaining calls, so one bad routine does not hide the others."""
     nw = min(8, max(1, len(names)))
     chunks = [names[i::nw] for i in range(nw)]
-    procs = []
-    for i, ch in enumerate(chunks):
-        if not ch:
-            continue
-        out = ck.scratch / ("%s_%d.jsonl" % (tag, i))
-        env = dict(os.environ)
-        env["PYTHONHASHSEED"] = "0"
-        if env_extra:
-            env.update(env_extra)
+    env = dict(os.environ)
+    env["PYTHONHASHSEED"] = "0"
+    if env_extra:
+        env.update(env_extra)
+
+    def spawn(ch, out, skipkeys):
         code = ("import sys; sys.path.insert(0, %r); from harness.props import c20; "
-                "c20.worker(%r, %d, %d, %r)" % (str(VERIF), ch, ck.seed, nrep, str(out)))
-        p = subprocess.Popen(["/venv/bin/python", "-c", code], env=env, stdout=subprocess.PIPE, stderr=subprocess.PIPE, text=True)
-        procs.append((p, out, ch))
-    records, crashes = [], []
-    for p, out, ch in procs:
-        try:
-            so, se = p.communicate(timeout=1500)
-        except subprocess.TimeoutExpired:
-            p.kill()
-            so, se = p.communicate()
-            se = (se or "") + "\nTIMEOUT"
+                "c20.worker(%r, %d, %d, %r, %r)" % (str(VERIF), ch, ck.seed, nrep, str(out), sorted(skipkeys)))
+        # stderr goes to a file: the polling wait() below does not drain pipes, and fff prints to stderr
+        errf = open(str(out) + ".stderr", "ab")
+        return subprocess.Popen(["/venv/bin/python", "-c", code], env=env, stdout=subprocess.DEVNULL, stderr=errf)
+
+    def read(out):
         recs = []
         if out.exists():
             for line in out.read_text().splitlines():
@@ -187,12 +205,60 @@ def run_workers(ck, names, nrep, env_extra=None, tag="w"):
                     recs.append(json.loads(line))
                 except Exception:
                     pass
-        records += recs
-        if p.returncode != 0:
-            last = [r for r in recs if r["status"] == "start"]
+        return recs
+
+    state = []
+    for i, ch in enumerate(chunks):
+        if ch:
+            out = ck.scratch / ("%s_%d.jsonl" % (tag, i))
+            state.append({"ch": ch, "out": out, "p": spawn(ch, out, set(skip0)), "skip": set(skip0), "respawns": 0})
+    records, crashes = [], []
+    factor = 4 if (env_extra and "VERIF_SANITIZE_OVERLAY" in env_extra) else 1
+
+    def wait(p, out):
+        """Wait for a worker; a compiled call that never returns holds the GIL, so the deadline is enforced here:
+        if the last record is a 'start' that is older than the call timeout, the worker is killed (exit 98)."""
+        import time as _t
+        t0 = _t.time()
+        while p.poll() is None:
+            _t.sleep(0.5)
+            hung = False
+            try:
+                if out.exists() and _t.time() - out.stat().st_mtime > CALL_TIMEOUT * factor:
+                    lines = out.read_text().splitlines()
+                    hung = bool(lines) and json.loads(lines[-1]).get("status") == "start"
+            except Exception:
+                hung = False
+            if hung or _t.time() - t0 > 2400:
+                p.kill()
+                p.wait()
+                return (98 if hung else -9), errtail(out) + ("\nHANG" if hung else "\nTIMEOUT")
+        return p.returncode, errtail(out)
+
+    def errtail(out):
+        try:
+            return open(str(out) + ".stderr", "rb").read()[-20000:].decode("utf-8", "replace")
+        except Exception:
+            return ""
+
+    for st in state:
+        while True:
+            p = st["p"]
+            rc, se = wait(p, st["out"])
+            recs = read(st["out"])
+            if rc == 0:
+                break
             done = {(r["name"], r["variant"], r["rep"]) for r in recs if r["status"] in ("ok", "exception", "skip", "builder-exception")}
-            pending = [r for r in last if (r["name"], r["variant"], r["rep"]) not in done]
-            crashes.append({"returncode": p.returncode, "during": pending[-1] if pending else None, "stderr": (se or "")[-3000:], "names": ch})
+            pending = [r for r in recs if r["status"] == "start" and (r["name"], r["variant"], r["rep"]) not in done
+                       and "%s|%s|%d" % (r["name"], r["variant"], r["rep"]) not in st["skip"]]
+            crashes.append({"returncode": rc, "hang": rc == 98, "during": pending[-1] if pending else None,
+                            "stderr": (se or "")[-3000:], "names": st["ch"]})
+            if not pending or st["respawns"] >= 12:
+                break
+            st["skip"] = {"%s|%s|%d" % k for k in done} | st["skip"] | {"%s|%s|%d" % (pending[-1]["name"], pending[-1]["variant"], pending[-1]["rep"])}
+            st["respawns"] += 1
+            st["p"] = spawn(st["ch"], st["out"], st["skip"])
+        records += read(st["out"])
     return records, crashes
 
 
@@ -221,7 +287,8 @@ def purity(ck):
                         "%s (%s layout) wrote outside the view it was given: %s" % (r["name"], r["variant"], r["wrote_outside_view"]),
                         {"routine": r["name"], "variant": r["variant"], "rep": r["rep"], "seed": ck.seed, "detail": r["wrote_outside_view"]})
             if r.get("mutated"):
-                kind_ = "reordered-in-place" if "reordered in place" in r["mutated"] else "values-or-metadata-changed"
+                kind_ = ("reordered-within-lanes" if "within lanes" in r["mutated"] else
+                         "values-moved-across-lanes" if "ACROSS lanes" in r["mutated"] else "values-or-metadata-changed")
                 ck.fail("mutates-input/%s/%s" % (r["name"], kind_),
                         "%s (%s layout) changed its caller's data: %s" % (r["name"], r["variant"], r["mutated"]),
                         {"routine": r["name"], "variant": r["variant"], "rep": r["rep"], "seed": ck.seed, "diff": r["mutated"]})
@@ -230,6 +297,10 @@ def purity(ck):
         if d is None:
             ck.fail("harness-worker-failed", "purity worker exited with %s before/after its calls: %s" % (c["returncode"], c["stderr"][-500:]),
                     {"crash": c}, found_input=False)
+        elif c.get("hang"):
+            ck.__dict__.setdefault("hang_keys", []).append("%s|%s|%d" % (d["name"], d["variant"], d["rep"]))
+            ck.fail("hang/%s/%s" % (d["name"], d["variant"]), "%s (%s variant) did not return within %d s: a compiled kernel that never terminates on an input its wrapper accepts" % (d["name"], d["variant"], CALL_TIMEOUT),
+                    {"routine": d["name"], "variant": d["variant"], "rep": d["rep"], "seed": ck.seed})
         else:
             ck.fail("crash/%s" % d["name"], "the interpreter died (exit %s) inside %s with %s layout" % (c["returncode"], d["name"], d["variant"]),
                     {"routine": d["name"], "variant": d["variant"], "rep": d["rep"], "seed": ck.seed, "stderr": c["stderr"][-1500:]})
@@ -255,9 +326,11 @@ def sanitizers(ck):
     kernels = [n for n in sorted(CATALOGUE) if any(k in n for k in ("quantile", "median", "histogram", "intvol", "_joint", "_cspline", "blas", "bindings", "HistogramRegistration", "PolyAffine", "ve_step", "knn", "Field", "registration.resample", "Forest", "ward", "kmeans"))]
     env = {"LD_PRELOAD": libasan, "ASAN_OPTIONS": "detect_leaks=0:abort_on_error=1:halt_on_error=1", "UBSAN_OPTIONS": "halt_on_error=1:abort_on_error=1:print_stacktrace=1",
            "VERIF_SANITIZE_OVERLAY": str(o["dir"])}
-    records, crashes = run_workers(ck, kernels, ck.n(1, 3), env_extra=env, tag="san")
+    records, crashes = run_workers(ck, kernels, ck.n(1, 3), env_extra=env, tag="san", skip0=getattr(ck, "hang_keys", ()))
     for c in crashes:
         d = c["during"]
+        if c.get("hang"):
+            continue          # reported by the purity pass
         rep = {"crash": c}
         sig = "sanitizer/%s" % (d["name"] if d else "worker")
         # refine by what the sanitizer reported and where (function name from the stack trace, else file:line),
